@@ -81,6 +81,29 @@ static int find_slot(parsec_tiled_matrix_t *t, int cap, parsec_data_t *d)
     return -1;
 }
 
+
+/* Tabular: every local tile is a separate allocation.  Their addresses are mapped to compact element offsets that
+ * preserve exactly which tiles overlap: pointers are sorted, the gap between consecutive ones is kept when smaller
+ * than a tile and clipped to one tile otherwise (numbers stay small for TLC). */
+static uintptr_t *tab_ptr = NULL; static long *tab_off = NULL; static int tab_n = 0;
+static int cmp_ptr(const void *a, const void *b) { uintptr_t x = *(uintptr_t*)a, y = *(uintptr_t*)b; return x < y ? -1 : x > y; }
+static long tab_prepare(parsec_matrix_tabular_t *t, int rank)
+{
+    int k; long bs = (long)t->super.bsiz;
+    free(tab_ptr); free(tab_off); tab_n = 0;
+    tab_ptr = (uintptr_t*)calloc((size_t)t->tiles_table->nbelem + 1, sizeof(uintptr_t));
+    tab_off = (long*)calloc((size_t)t->tiles_table->nbelem + 1, sizeof(long));
+    for( k = 0; k < t->tiles_table->nbelem; k++ )
+        if( t->tiles_table->elems[k].rank == rank && NULL != t->tiles_table->elems[k].data )
+            tab_ptr[tab_n++] = (uintptr_t)t->tiles_table->elems[k].data;
+    qsort(tab_ptr, (size_t)tab_n, sizeof(uintptr_t), cmp_ptr);
+    for( k = 1; k < tab_n; k++ ) {
+        long gap = (long)((tab_ptr[k] - tab_ptr[k-1]) / ESZ);
+        tab_off[k] = tab_off[k-1] + (gap < bs ? gap : bs);
+    }
+    return tab_n ? tab_off[tab_n-1] + bs : 0;      /* span of the compact layout */
+}
+
 typedef struct {
     parsec_data_collection_t *dc;       /* the collection under test */
     parsec_tiled_matrix_t *tm;
@@ -95,6 +118,14 @@ typedef struct {
     int   is_vector, is_tabular, is_sym, sym_lower;
 } view_t;
 
+
+static long tab_offset(view_t *v, char *ptr)
+{
+    (void)v;
+    for( int k = 0; k < tab_n; k++ ) if( tab_ptr[k] == (uintptr_t)ptr ) return tab_off[k];
+    return -1;     /* not one of the tiles the table allocated for this rank */
+}
+
 static void dump_view(const cfg_t *c, view_t *v, int rank, int nodes)
 {
     parsec_data_collection_t *dc = v->dc;
@@ -104,8 +135,6 @@ static void dump_view(const cfg_t *c, view_t *v, int rank, int nodes)
     for( a = 0; a < v->nareas; a++ ) { nlt += v->area_tm[a]->nb_local_tiles; cap += v->area_cap[a]; }
     fprintf(out, "{\"e\":\"view\",\"rank\":%d,\"nodes\":%d,\"mt\":%d,\"nt\":%d,\"nlt\":%d,\"cap\":%ld,\"nvp\":%d,\"tiles\":[",
             rank, nodes, tm->mt, tm->nt, nlt, cap, parsec_vpmap_get_nb_vp());
-    /* lowest pointer of separately allocated tiles (tabular) */
-    uintptr_t base_tab = 0;
     for( n = 0; n < tm->nt; n++ ) for( m = 0; m < tm->mt; m++ ) {
         int gm = m + tm->i / tm->mb, gn = n + tm->j / tm->nb;
         if( v->is_sym && ((v->sym_lower && gm < gn) || (!v->sym_lower && gm > gn)) ) continue;   /* not stored */
@@ -129,16 +158,7 @@ static void dump_view(const cfg_t *c, view_t *v, int rank, int nodes)
                 if( s >= 0 ) {
                     slot = base_slot + s;
                     if( v->is_tabular ) {
-                        /* separately allocated tiles: lay them out by allocation address order is meaningless; use
-                         * the distance to the lowest tile pointer of this rank */
-                        if( 0 == base_tab ) {
-                            parsec_matrix_tabular_t *t = (parsec_matrix_tabular_t*)tm;
-                            for( int k = 0; k < t->tiles_table->nbelem; k++ ) {
-                                uintptr_t p = (uintptr_t)t->tiles_table->elems[k].data;
-                                if( p && (0 == base_tab || p < base_tab) ) base_tab = p;
-                            }
-                        }
-                        off = (long)(((uintptr_t)ptr - base_tab) / ESZ);
+                        off = tab_offset(v, ptr);
                     } else {
                         off = base_off + (long)(ptr - v->area_mat[a]) / ESZ;
                     }
@@ -239,7 +259,7 @@ static void one_rank(const cfg_t *c, int rank, int nodes)
         parsec_matrix_tabular_init(&T, MTYPE, nodes, rank, c->mb, c->nb, c->lm, c->ln, c->i, c->j, c->m, c->n, NULL);
         parsec_matrix_tabular_set_random_table(&T, (unsigned int)c->seed);
         v.area_map[0] = grow_map(&T.super);
-        v.area_cap[0] = (long)1 << 40;     /* separately allocated tiles: no common capacity */
+        v.area_cap[0] = tab_prepare(&T, rank);
         v.area_tm[0] = &T.super; v.nareas = 1; v.is_tabular = 1;
         v.dc = &T.super.super; v.tm = &T.super;
         dump_view(c, &v, rank, nodes);
